@@ -219,7 +219,7 @@ def run(ctx):
     ctx.check(per_byte and set(consts) <= {0xFFFD} and bool(consts), "REPL", "ascii_decode emits one character per byte (U+FFFD for non-ASCII)", "", whyd if not per_byte else
               "ascii_decode substitutes %s, not U+FFFD" % [hex(c) for c in consts], f.loc(), fn=f.name, key="REPL|ascii-per-byte")
     # the ASCII range is exactly 0..=0x7F on both sides: a unit passes through exactly when it is <= 0x7F, and is replaced exactly when it is >= 0x80
-    from ..lib import interval_of, lifted_closures
+    from ..lib import interval_of, lifted_closures, ret_locals
     for fname, unit_ty in (("msi::internal::codepage::ascii_decode", "char"), ("msi::internal::codepage::ascii_encode", "u8")):
         f = prog.fn(fname)
         Sf = Sym(prog, f)
@@ -234,10 +234,16 @@ def run(ctx):
                 if t["t"] == "call" and re.search(r"(Vec::<T, A>|String)::push$", cname(prog, t)):
                     em.append(val(t["args"][1]))
                 if g.kind == "Closure" and g.locals[0] == unit_ty:
+                    rl = ret_locals(g)
                     for st in bl["stmts"]:
-                        if st["lhs"]["l"] == 0 and not st["lhs"]["p"] and st["rhs"]["rv"] in ("use", "cast"):
-                            v = val(st["rhs"]["ops"][0])
+                        if st["lhs"]["l"] in rl and not st["lhs"]["p"] and st["rhs"]["rv"] in ("use", "cast"):
+                            o = st["rhs"]["ops"][0]
+                            if st["rhs"]["rv"] == "use" and o.get("pl") and not o["pl"]["p"] and o["pl"]["l"] in rl:
+                                continue
+                            v = val(o)
                             em.append("(%s as %s)" % (v, unit_ty) if st["rhs"]["rv"] == "cast" else v)
+                    if t["t"] == "call" and t["dest"]["l"] in rl and not t["dest"]["p"] and re.search(r"convert::<impl std::convert::From<(u8|char)> for (char|u32)>::from$|convert::From::from$", cname(prog, t)):
+                        em.append("(%s as %s)" % (val(t["args"][0]), unit_ty))
                 for v in em:
                     m = re.fullmatch(r"\((.*) as (char|u8)\)", v)
                     if m:
